@@ -1114,6 +1114,13 @@ func (c *callable) Value(env *env) reflect.Value {
 			r[t]++
 		}
 		for _, arg := range args {
+			if k := arg.Kind(); k == reflect.Array || k == reflect.Struct {
+				// The function can assign to the elements and to the fields
+				// of its parameters: they must be addressable.
+				v := reflect.New(arg.Type()).Elem()
+				v.Set(arg)
+				arg = v
+			}
 			t := kindToType[arg.Kind()]
 			nvm.setFromReflectValue(r[t], arg)
 			r[t]++
